@@ -48,6 +48,10 @@ class HookScript:
                                     {k: v for k, v in kw.items() if k in ('pid', 'signum')}))
         if self.outcome == 'raise':
             raise RuntimeError('scripted hook failure %s' % self.hname)
+        if self.outcome.startswith('true+'):
+            # a hook that takes (virtual) time, e.g. a health probe: 'true+0.1'
+            self.world.clock.now += float(self.outcome[5:])
+            return True
         return self.outcome == 'true'
 
 
